@@ -1589,6 +1589,14 @@ func (s *Netceptor) handleRoutingUpdate(ri *routingUpdate, recvConn string) {
 
 // Handles a ping request.
 func (s *Netceptor) handlePing(md *MessageData) error {
+	if md.FromService == "ping" {
+		// A reply is itself sent from the ping service, so answering a ping that claims to come
+		// from a ping service would be answered in turn: without end between two nodes, and by
+		// unbounded recursion (until the stack overflows) when it names this node as the sender.
+		// Genuine pings are sent from an ephemeral service (see CreatePing).
+		return nil
+	}
+
 	return s.sendMessage("ping", md.FromNode, md.FromService, []byte{})
 }
 
